@@ -5,6 +5,7 @@ pub mod env;
 pub mod git;
 pub mod ls;
 pub mod roff;
+pub mod runs;
 pub mod sgr;
 pub mod strip;
 pub mod utf8;
